@@ -400,6 +400,87 @@ theorem stddev_is_real (o : Oracles) (v : VVal) (r : Val) (h : aggStddev o v = .
             | ok b => simp only [ho] at h; right; exact ⟨b, by cases h; rfl⟩
         · simp [hnum, pyErr] at h
 
+/-! ### the HTML report's data (`spendingData.sections`) -/
+
+/-- no two views that have members share an id in the report's data.  This is a HYPOTHESIS about the id
+function `idOf` of `write_summary_file_vue` (a function of the view NAME), checked by the harness on every
+generated views file with the ids the real report hands out.  As pinned (`name.lower().replace(' ', '_')`) it
+fails exactly for names that are equal once lower-cased with spaces written as underscores
+(`[My View]` / `[my_view]`: recorded observation D12g, witness below). -/
+def distinctIds {α : Type} (idOf : String → String) (r : List (String × List α)) : Prop :=
+  ((r.filter (fun p => !p.2.isEmpty)).map (fun p => idOf p.1)).Nodup
+
+instance {α : Type} (idOf : String → String) (r : List (String × List α)) : Decidable (distinctIds idOf r) := by
+  unfold distinctIds; infer_instance
+
+/-- under `distinctIds` the data holds exactly the views that have members - in the order of the views file,
+each under its own id, with its own title and exactly its merchants; for ANY id function. -/
+theorem html_sections_eq {α : Type} (idOf : String → String) (r : List (String × List α))
+    (h : distinctIds idOf r) :
+    htmlSections idOf r = (r.filter (fun p => !p.2.isEmpty)).map (fun p => (idOf p.1, (p.1, p.2))) := by
+  unfold htmlSections
+  rw [htmlSections_fold idOf r [] (by simpa [distinctIds] using h)]
+  simp
+
+/-- the merchants listed under a view's title in the HTML data are the view's members -/
+theorem html_members_eq {α : Type} (idOf : String → String) (r : List (String × List α))
+    (hk : (r.map (·.1)).Nodup) (h : distinctIds idOf r) (name : String) :
+    htmlMembers (htmlSections idOf r) name = members r name := by
+  rw [html_sections_eq idOf r h]
+  unfold htmlMembers members
+  rw [List.map_map]
+  have : ((fun (e : String × (String × List α)) => e.2) ∘ fun (p : String × List α) => (idOf p.1, (p.1, p.2))) = id := by
+    funext p; rfl
+  rw [this, List.map_id]
+  exact lookup_filter_of_nodup r name hk
+
+/-- Clause 1 at the HTML observation point: under distinct view names and distinct ids, a merchant is listed
+under the view's title in `spendingData.sections` iff it is not tagged income / transfer / investment and the
+view's filter is true over its own payments. -/
+theorem html_member_iff (c : Bool) (o : Oracles) (lower : String → String) (cfg : Config) (n : Nat)
+    (ms : List Merchant) (idOf : String → String) (v : Section) (hv : v ∈ cfg.sections)
+    (hd : distinctNames cfg.sections) (hid : distinctIds idOf (classifyViews c o lower cfg n ms)) (m : Merchant) :
+    m ∈ htmlMembers (htmlSections idOf (classifyViews c o lower cfg n ms)) v.name ↔
+      m ∈ ms ∧ excluded lower m = false ∧
+        filterTrue c o cfg (periodData n (keptMerchants lower ms)) v (ctxOf m) := by
+  rw [html_members_eq idOf _ (by unfold classifyViews; exact keys_classifyMerchants_nodup _ _ _) hid]
+  exact member_iff c o lower cfg n ms v hv hd m
+
+/-- every entry of the data is a view that has members, whatever the ids are (nothing is invented) -/
+theorem html_sections_sound {α : Type} (idOf : String → String) (r : List (String × List α))
+    (e : String × (String × List α)) (he : e ∈ htmlSections idOf r) :
+    (e.2.1, e.2.2) ∈ r ∧ e.2.2.isEmpty = false ∧ e.1 = idOf e.2.1 := by
+  unfold htmlSections at he
+  suffices h : ∀ acc : List (String × (String × List α)),
+      (∀ x ∈ acc, (x.2.1, x.2.2) ∈ r ∧ x.2.2.isEmpty = false ∧ x.1 = idOf x.2.1) →
+      ∀ l : List (String × List α), (∀ p ∈ l, p ∈ r) →
+      ∀ x ∈ l.foldl (fun d p => if p.2.isEmpty then d else setKey (idOf p.1) (p.1, p.2) d) acc,
+        (x.2.1, x.2.2) ∈ r ∧ x.2.2.isEmpty = false ∧ x.1 = idOf x.2.1 by
+    exact h [] (by simp) r (fun _ hp => hp) e he
+  intro acc hacc l
+  induction l generalizing acc with
+  | nil => intro _ x hx; exact hacc x hx
+  | cons p l ih =>
+    intro hl x hx
+    rw [List.foldl_cons] at hx
+    refine ih _ ?_ (fun q hq => hl q (List.mem_cons_of_mem _ hq)) x hx
+    intro y hy
+    by_cases hp : p.2.isEmpty = true
+    · rw [if_pos hp] at hy; exact hacc y hy
+    · rw [if_neg hp] at hy
+      have hp' : p.2.isEmpty = false := by simpa using hp
+      unfold setKey at hy
+      split at hy
+      · obtain ⟨z, hz, e⟩ := List.mem_map.mp hy
+        by_cases hk : (z.1 == idOf p.1) = true
+        · rw [if_pos hk] at e; subst e
+          exact ⟨hl p (List.mem_cons_self ..), hp', rfl⟩
+        · rw [if_neg hk] at e; subst e; exact hacc z hz
+      · rcases List.mem_append.mp hy with h1 | h1
+        · exact hacc y h1
+        · simp only [List.mem_singleton] at h1; subst h1
+          exact ⟨hl p (List.mem_cons_self ..), hp', rfl⟩
+
 /-! ### non-vacuity: the hypotheses are satisfiable and the statements are not empty -/
 
 section Examples
@@ -447,6 +528,22 @@ example : (classifyViews true noOracle lowerAscii cfgDerived 12 [mA, mB, mC]).ma
 example : (match aggStddev noOracle (.v (.list [.int 5])) with | .ok (.int 0) => true | _ => false) = true := by decide +kernel
 example : (match aggStddev { noOracle with stdev := fun _ => some (.ok 0) } (.v (.list [.int 5, .int 5])) with
     | .ok (.flt b) => b == 0 | _ => false) = true := by decide +kernel
+
+-- D12g (recorded observation): with the id function as pinned, `[My View]` and `[my_view]` share the id `my_view`;
+-- the later view takes the earlier one's place and the merchant A is listed nowhere in the HTML data
+-- (the pinned `name.lower().replace(' ', '_')` written out as a table on the names used here: evaluating `String.map` inside
+-- the kernel takes ~45 s per example; the harness observes the real function on the real report)
+def idPinned (s : String) : String :=
+  if s = "My View" then "my_view" else if s = "Food & Drink" then "food_&_drink"
+  else if s = "Food / Drink" then "food_/_drink" else if s = "Empty" then "empty" else s
+example : ¬ distinctIds idPinned [("My View", ["A"]), ("my_view", ["B"])] := by decide +kernel
+example : htmlSections idPinned [("My View", ["A"]), ("my_view", ["B"])] = [("my_view", ("my_view", ["B"]))] := by decide +kernel
+example : htmlMembers (htmlSections idPinned [("My View", ["A"]), ("my_view", ["B"])]) "My View" = [] := by decide +kernel
+-- … while names that differ in punctuation, or have no ASCII letter at all, keep their own entries
+example : distinctIds idPinned [("Food & Drink", ["A"]), ("Food / Drink", ["B"]), ("食費", ["C"]), ("光熱費", ["D"]), ("Empty", [])] := by
+  decide +kernel
+example : htmlSections idPinned [("Food & Drink", ["A"]), ("Empty", []), ("食費", ["C"])] =
+    [("food_&_drink", ("Food & Drink", ["A"])), ("食費", ("食費", ["C"]))] := by decide +kernel
 
 end Examples
 
